@@ -162,8 +162,21 @@ func RunOutputCase(seed int64, o OutputOpts) *HistResult {
 		perm := r.Perm(len(hostileTaskNames))
 		var names []string
 		var ots []outTask
+		// sometimes two very long names that differ only near their end (file names are derived from task names)
+		longPair := r.Intn(4) == 0
+		if longPair {
+			nT += 2
+		}
 		for t := 0; t < nT; t++ {
-			name := hostileTaskNames[perm[t]]
+			var name string
+			switch {
+			case longPair && t == nT-2:
+				name = strings.Repeat("long-task-name-", 14) + "ending-A"
+			case longPair && t == nT-1:
+				name = strings.Repeat("long-task-name-", 14) + "ending-BB"
+			default:
+				name = hostileTaskNames[perm[t]]
+			}
 			names = append(names, name)
 			ot := outTask{name: name, allow: r.Intn(4) == 0, reopen: -1}
 			if r.Intn(3) == 0 {
@@ -349,6 +362,54 @@ func RunOutputCase(seed int64, o OutputOpts) *HistResult {
 				res.sit("C19", "log api compared")
 			}
 		}
+		// C02 / C08 with the REAL task runner: a command that exits with a non-zero status fails its task (unless
+		// allow_failure), nothing that depends on a failed task runs, and such a job is not reported as a plain success
+		if !canceled[j.id] {
+			var def definition.PipelineDef
+			for _, sp := range specs {
+				if sp.Name == j.pipe {
+					def = sp.Def
+				}
+			}
+			state := map[string]string{}
+			anyFailed := false
+			for _, ot := range tasksOf[j.pipe] {
+				st := "ok"
+				for _, d := range def.Tasks[ot.name].DependsOn {
+					if state[d] != "ok" {
+						st = "blocked"
+					}
+				}
+				if st == "ok" && !ot.allow && !ot.slow {
+					for _, pl := range ot.plans {
+						if pl.ExitAt > 0 {
+							st = "failed"
+						}
+					}
+				}
+				state[ot.name] = st
+				ts := snap.Task(ot.name)
+				if ts == nil {
+					continue
+				}
+				res.sit("C02", fmt.Sprintf("real runner: task %s, job has %d tasks", st, len(tasksOf[j.pipe])))
+				res.sit("C08", fmt.Sprintf("real runner: task %s allow_failure=%v", st, ot.allow))
+				switch st {
+				case "failed":
+					anyFailed = true
+					if ts.Status != "error" || !ts.Errored {
+						res.Findings = append(res.Findings, Finding{Props: []string{"C08", "C02"}, Sig: "C08:failed-task-not-reported-errored", Detail: fmt.Sprintf("real task runner: a command of task %q exited with status 3 (no allow_failure) but the task is reported status=%q errored=%v exit=%d", ot.name, ts.Status, ts.Errored, ts.ExitCode), Step: -1})
+					}
+				case "blocked":
+					if ts.Start != nil || ts.Status == "done" || ts.Status == "running" {
+						res.Findings = append(res.Findings, Finding{Props: []string{"C02", "C08"}, Sig: "C02:task-ran-although-dependency-failed", Detail: fmt.Sprintf("real task runner: task %q depends on %v, which failed / never ran, but is reported status=%q started=%v", ot.name, def.Tasks[ot.name].DependsOn, ts.Status, ts.Start != nil), Step: -1})
+					}
+				}
+			}
+			if anyFailed && snap.Completed && !snap.Canceled && !snap.HasError {
+				res.Findings = append(res.Findings, Finding{Props: []string{"C08", "C02"}, Sig: "C08:job-with-failed-task-reported-plain-success", Detail: "real task runner: a task failed without allow_failure, yet the job is reported completed, not canceled and without error", Step: -1})
+			}
+		}
 		// a task the job does not have is refused, also if another job has it
 		for _, other := range []string{"no-such-task", "slow-canceled", hostileTaskNames[r.Intn(len(hostileTaskNames))]} {
 			has := false
@@ -416,6 +477,8 @@ func sizeClass(n int) string {
 
 func nameClass(n string) string {
 	switch {
+	case len(n) > 200:
+		return "very-long"
 	case strings.Contains(n, "/") || strings.Contains(n, ".."):
 		return "path"
 	case strings.Contains(n, "%"):
